@@ -248,6 +248,29 @@ func genPart(cfg Config, emit func(string, bool, []string)) {
 				g.head = g.nvers - 1
 				g.emit("notify")
 			}
+			// an inner node that keeps its own key after its last child is gone, then loses the key too
+			step := func(ops ...string) {
+				base := g.head
+				g.emit("txn %d", base)
+				for _, o := range ops {
+					g.emit("%s", o)
+				}
+				g.emit("dump")
+				g.emit("commit")
+				g.addVer(base)
+				g.head = g.nvers - 1
+				g.emit("closed")
+				g.emit("notify")
+				g.emit("closed")
+			}
+			step("ins "+k("q")+" 50", "ins "+k("qr")+" 51", "ins "+k("qrs")+" 52")
+			step("del "+k("qrs"), "del "+k("qr"))
+			for _, q := range []string{"q", "qr", "qz", ""} {
+				g.emit("vprefix %d %s", g.head, k(q))
+				g.emit("vget %d %s", g.head, k(q))
+			}
+			g.emit("vrootwatch %d", g.head)
+			step("del " + k("q"))
 			for v := 0; v < g.nvers; v++ {
 				g.emit("viter %d", v)
 				g.emit("vlen %d", v)
